@@ -195,8 +195,20 @@ func project(method string, result any) (line string, err error) {
 			numOf(field(o, "block_number"), "block_number"), feltOf(field(o, "block_hash"), "block_hash")), nil
 	case "txStatus":
 		o := objOf(result, "result")
-		return fmt.Sprintf("ok %s %s", finalityOf(strOf(field(o, "finality_status"), "finality_status")),
-			execRev(strOf(field(o, "execution_status"), "execution_status"))), nil
+		exec := "-" // the field is optional: a status relayed from the gateway may have none
+		if e, has := o["execution_status"]; has {
+			exec = execRev(strOf(e, "execution_status"))
+		}
+		line := fmt.Sprintf("ok %s %s", finalityOf(strOf(field(o, "finality_status"), "finality_status")), exec)
+		// which of the stub gateway's texts is relayed as failure_reason (reasons recorded on the
+		// chain are compared by the deep pass)
+		switch fr, _ := o["failure_reason"].(string); fr {
+		case stubRevertReason:
+			line += " rr"
+		case stubFailureCode + ": " + stubFailureReason:
+			line += " fr"
+		}
+		return line, nil
 	case "stateUpdate":
 		o := objOf(result, "result")
 		if _, has := o["block_hash"]; !has {
@@ -208,11 +220,14 @@ func project(method string, result any) (line string, err error) {
 		}
 		return fmt.Sprintf("ok %s %s %s %s", feltOf(field(o, "block_hash"), "block_hash"), feltOf(field(o, "new_root"), "new_root"),
 			feltOf(field(o, "old_root"), "old_root"), diffProj(objOf(field(o, "state_diff"), "state_diff"))), nil
-	case "storage", "nonce", "classHashAt":
+	case "nonce", "classHashAt":
 		return "ok " + feltOf(result, "result"), nil
-	case "storageLU":
-		o := objOf(result, "result")
-		return fmt.Sprintf("ok %s @%x", feltOf(field(o, "value"), "value"), numOf(field(o, "last_update_block"), "last_update_block")), nil
+	case "storage", "storageLU":
+		// the answer says itself which form it has: a felt, or {value, last_update_block}
+		if o, isObj := result.(jobj); isObj {
+			return fmt.Sprintf("ok %s @%x", feltOf(field(o, "value"), "value"), numOf(field(o, "last_update_block"), "last_update_block")), nil
+		}
+		return "ok " + feltOf(result, "result"), nil
 	}
 	return "", fmt.Errorf("no projection for %s", method)
 }
